@@ -1,3 +1,4 @@
+import WS.Lemmas.CutProgram
 import WS.Lemmas.CutAnyLimit
 import WS.Lemmas.ZCut
 import WS.Lemmas.SrcLaw
@@ -156,6 +157,30 @@ theorem cut_never_complete_any_limit (c : Conn) (hc : ReaderIdle c) (t : Nat) (h
     (∃ got e, openAndRead c k = .failedRead t got e ∧ e ≠ .eof ∧ got <+: dataPayload fs) ∨
     (1000 ≤ c.r.errCount + 1 ∧ openAndRead c k = .panicked) := by
   first | exact WS.CutAnyLimit.cut_never_complete_any_limit .. | (apply WS.CutAnyLimit.cut_never_complete_any_limit <;> assumption)
+
+open WS.Codec WS.ReaderDecodes WS.ReadProgram WS.CutProgram in
+/-- the first sentence of C05 for EVERY read program (`runProg`, C03.any_read_program): whole messages,
+    then the first `cut` bytes of one more message (cut strictly inside it), then the transport's terminal
+    condition, whatever it is and however delivered; the application calls NextReader and Read(k) in any
+    order, number and sizes — also after errors, also NextReader from inside the cut message. The messages
+    its trace reports as complete (`completed`: opened, pieces without error, then io.EOF) form a sublist
+    of the whole messages, in order: every message reported complete was completely received and is
+    byte-identical, and the partially received one is never among them.
+    PARTIAL with respect to the full statement `cut_program_never_complete` (kept, commented, in
+    WS/Lemmas/CutProgram.lean; not refuted): proved when (a) every WHOLE message is within the read limit
+    (the cut one need not be) and (b) the terminal condition does not arrive together with the last bytes
+    of the last whole message (`together = false ∨ 0 < cut`); the two excluded corners are covered at the
+    one-message level by `cut_never_complete_any_limit`, `whole_message_then_error` and by the rcut stream. -/
+theorem cut_program_never_complete_fits_partial (c : Conn) (hc : ReaderIdle c) (msgs : List (Nat × List PFrame))
+    (hm : ∀ m ∈ msgs, (m.1 = 1 ∨ m.1 = 2) ∧ MsgShape m.1 m.2 ∧ (dataPayload m.2).length < 2 ^ 62 ∧
+      (c.r.limit ≤ 0 ∨ ((dataPayload m.2).length : Int) ≤ c.r.limit))
+    (t : Nat) (ht : t = 1 ∨ t = 2) (fs : List PFrame) (hs : MsgShape t fs) (hsz : (dataPayload fs).length < 2 ^ 62)
+    (cut : Nat) (hcut : cut < (encAll c.r.isServer fs).length)
+    (hp : c.r.buf.pending = (msgs.map (fun m => encAll c.r.isServer m.2)).flatten ++ (encAll c.r.isServer fs).take cut)
+    (hend : c.r.buf.t.together = false ∨ 0 < cut)
+    (ops : List ROp) :
+    List.Sublist (completed (runProg ops c none).1) (msgs.map (fun m => (m.1, dataPayload m.2))) := by
+  first | exact WS.CutProgram.cut_program_never_complete_fits_partial .. | (apply WS.CutProgram.cut_program_never_complete_fits_partial <;> assumption)
 
 /-! ### non-vacuity -/
 section NonVacuity
@@ -437,6 +462,42 @@ example : ZCut.cxC.r.buf.t.together = true ∧ (zReadToEnd ZCut.cxC 0 cxE).2.r.r
     (zReadToEnd ZCut.cxC 0 cxE).2 (Prod.ext complete_reads_to_end_counterexample.2.2.2.1 rfl) with h | h
   · rw [complete_reads_to_end_counterexample.2.2.2.2] at h; cases h
   · exact h
+
+section Program
+open WS.ReadProgram WS.CutProgram
+
+/-- a server reader facing the whole message `witMsg` ("Hello", 24 wire bytes) and then the first 21
+    bytes of the same message again, then EOF together with the last bytes -/
+def witTwo : Conn :=
+  { w := newW true 4096 false false,
+    r := { isServer := true, nego := false,
+           buf := { size := 4096, buf := (encAll true witMsg).take 5,
+                    t := { chunks := [(encAll true witMsg).drop 5 ++ (encAll true witMsg).take 9, ((encAll true witMsg).take 21).drop 9],
+                           term := .eof, together := true },
+                    total := 45 } } }
+
+def witTwo_idle : ReaderIdle witTwo :=
+  ⟨rfl, rfl, rfl, ⟨by decide, by decide, by decide, (by intro e h; cases h)⟩, by decide, by decide,
+    (by intro id h; cases h), (by intro id h; cases h)⟩
+
+/-- a program that reads the first message to its end, opens the second, reads on after the failure and
+    asks for yet another message -/
+def witProg : List ROp := [.next, .read 9, .read 9, .read 9, .next, .read 9, .read 9, .read 0, .next, .read 3]
+
+/-- non-vacuity of `cut_program_never_complete_fits_partial`: all hypotheses hold -/
+example : List.Sublist (completed (runProg witProg witTwo none).1) [(1, dataPayload witMsg)] :=
+  cut_program_never_complete_fits_partial witTwo witTwo_idle [(1, witMsg)]
+    (by
+      intro m hm
+      simp only [List.mem_cons, List.mem_nil_iff, or_false] at hm
+      subst hm
+      exact ⟨Or.inl rfl, witMsg_shape, by decide, Or.inl (by decide)⟩)
+    1 (Or.inl rfl) witMsg witMsg_shape (by decide) 21 (by decide) (by decide) (Or.inr (by decide)) witProg
+
+/-- what the trace reports there: exactly the first message, complete; the second never -/
+example : completed (runProg witProg witTwo none).1 = [(1, [0x48, 0x65, 0x6c, 0x6c, 0x6f])] := by decide +kernel
+
+end Program
 
 end NonVacuity
 
